@@ -248,3 +248,147 @@ def extract_search(repo):
             '  { cut := %s,\n    pair := %s,\n    strict := %s }\n'
             'end C10\n' % (_to_lean(cut), _to_lean(pair), 'true' if strict else 'false'))
     return text, {'cut': _to_text(cut), 'pair': _to_text(pair), 'strict': strict, 'notes': notes}
+
+
+# ----------------------------------------------------------------------------
+# bin/martinize2: -bonds-from / -bonds-fudge -> MakeBonds(allow_name, allow_dist, fudge)
+# ----------------------------------------------------------------------------
+def _const(node):
+    return node.value if isinstance(node, ast.Constant) else None
+
+
+def _lean_opt_str(v):
+    return '(some %s)' % _lean_str(v) if isinstance(v, str) else 'none'
+
+
+def _lean_list(items):
+    return '[' + ', '.join(items) + ']'
+
+
+def _fraction_of(node):
+    v = _const(node)
+    if isinstance(v, bool) or not isinstance(v, (int, float)):
+        return None
+    try:
+        fr = Fraction(repr(v))
+    except (ValueError, ZeroDivisionError):
+        return None
+    return fr if fr >= 0 else None
+
+
+def _add_argument_calls(tree, flag):
+    out = []
+    for n in ast.walk(tree):
+        if isinstance(n, ast.Call) and isinstance(n.func, ast.Attribute) and n.func.attr == 'add_argument' \
+                and n.args and _const(n.args[0]) == flag:
+            out.append(n)
+    return out
+
+
+def _calls_to(fn, name):
+    out = []
+    for n in ast.walk(fn):
+        if isinstance(n, ast.Call):
+            f = n.func
+            fname = f.attr if isinstance(f, ast.Attribute) else f.id if isinstance(f, ast.Name) else None
+            if fname == name:
+                out.append(n)
+    return out
+
+
+def extract_cli(repo):
+    """-> (text of Generated/C10Cli.lean, dict for the evidence)"""
+    path = os.path.join(repo, 'bin', 'martinize2')
+    info = {'notes': []}
+    flag = {'dest': None, 'choices': [], 'default': None}
+    fudge = {'dest': None, 'type': None, 'default': None}
+    assigns, entry_kw, proc_kw = [], [], []
+    try:
+        tree = ast.parse(open(path).read())
+    except (OSError, SyntaxError) as e:
+        tree = ast.parse('')
+        info['notes'].append('cannot read bin/martinize2: %s' % type(e).__name__)
+    calls = _add_argument_calls(tree, '-bonds-from')
+    if len(calls) == 1:
+        kw = {k.arg: k.value for k in calls[0].keywords}
+        flag['dest'] = _const(kw.get('dest')) if 'dest' in kw else 'bonds_from'
+        ch = kw.get('choices')
+        if isinstance(ch, (ast.List, ast.Tuple)) and all(isinstance(_const(e), str) for e in ch.elts):
+            flag['choices'] = [_const(e) for e in ch.elts]
+        else:
+            info['notes'].append('choices of -bonds-from not a literal list of strings')
+        flag['default'] = _const(kw.get('default')) if 'default' in kw else None
+        if any(k in kw for k in ('type', 'action', 'nargs', 'const')):
+            info['notes'].append('-bonds-from has type/action/nargs/const')
+            flag['dest'] = None
+    else:
+        info['notes'].append('%d add_argument("-bonds-from") calls' % len(calls))
+    calls = _add_argument_calls(tree, '-bonds-fudge')
+    if len(calls) == 1:
+        kw = {k.arg: k.value for k in calls[0].keywords}
+        fudge['dest'] = _const(kw.get('dest')) if 'dest' in kw else 'bonds_fudge'
+        fudge['type'] = kw['type'].id if isinstance(kw.get('type'), ast.Name) else None
+        fudge['default'] = _fraction_of(kw['default']) if 'default' in kw else None
+        if any(k in kw for k in ('action', 'nargs', 'const', 'choices')):
+            info['notes'].append('-bonds-fudge has action/nargs/const/choices')
+            fudge['dest'] = None
+    else:
+        info['notes'].append('%d add_argument("-bonds-fudge") calls' % len(calls))
+    fns = {n.name: n for n in tree.body if isinstance(n, ast.FunctionDef)}
+    # MakeBonds(...) inside pdb_to_universal
+    p2u = fns.get('pdb_to_universal')
+    if p2u is not None:
+        mb = _calls_to(p2u, 'MakeBonds')
+        if len(mb) == 1 and not mb[0].args:
+            proc_kw = [(k.arg, ast.unparse(k.value)) for k in mb[0].keywords if k.arg]
+        else:
+            info['notes'].append('%d MakeBonds(...) calls in pdb_to_universal (or positional arguments)' % len(mb))
+        params = {a.arg for a in p2u.args.args + p2u.args.kwonlyargs}
+        rebound = {t.id for n in ast.walk(p2u) for t in (n.targets if isinstance(n, ast.Assign) else
+                                                        [n.target] if isinstance(n, (ast.AugAssign, ast.AnnAssign)) else [])
+                   if isinstance(t, ast.Name)}
+        for k, v in proc_kw:
+            if v not in params or v in rebound:
+                info['notes'].append('MakeBonds keyword %s=%s is not an untouched parameter of pdb_to_universal' % (k, v))
+                proc_kw = [(a, '?' + b if a == k else b) for a, b in proc_kw]
+    else:
+        info['notes'].append('no function pdb_to_universal')
+    # the caller of pdb_to_universal and the membership tests
+    for fn in fns.values():
+        calls = _calls_to(fn, 'pdb_to_universal')
+        if not calls or fn.name == 'pdb_to_universal':
+            continue
+        if len(calls) != 1 or entry_kw:
+            info['notes'].append('more than one call of pdb_to_universal')
+            entry_kw = []
+            break
+        entry_kw = [(k.arg, ast.unparse(k.value)) for k in calls[0].keywords if k.arg]
+        count = {}
+        for n in ast.walk(fn):
+            if isinstance(n, ast.Assign) and len(n.targets) == 1 and isinstance(n.targets[0], ast.Name):
+                count[n.targets[0].id] = count.get(n.targets[0].id, 0) + 1
+                v = n.value
+                if isinstance(v, ast.Compare) and len(v.ops) == 1 and isinstance(v.ops[0], ast.In) \
+                        and isinstance(v.comparators[0], (ast.Tuple, ast.List, ast.Set)) \
+                        and all(isinstance(_const(e), str) for e in v.comparators[0].elts):
+                    assigns.append((n.targets[0].id, ast.unparse(v.left), [_const(e) for e in v.comparators[0].elts]))
+        assigns = [a for a in assigns if count.get(a[0]) == 1]     # assigned exactly once
+    fd = fudge['default']
+    text = ('import VermouthModel.C10_Cli\n'
+            '/- GENERATED by harness/c10_extract.py from bin/martinize2 (add_argument("-bonds-from"/"-bonds-fudge"), the\n'
+            'membership tests, the call of pdb_to_universal and the call of MakeBonds inside it). Do not edit. -/\n'
+            'namespace C10\n'
+            'def cliTable : CliTable :=\n'
+            '  { dest := %s,\n    choices := %s,\n    default := %s,\n    assigns := %s,\n    entryKw := %s,\n    procKw := %s,\n'
+            '    fudgeDest := %s,\n    fudgeType := %s,\n    fudgeDefault := %s }\n'
+            'end C10\n'
+            % (_lean_opt_str(flag['dest']), _lean_list(_lean_str(c) for c in flag['choices']), _lean_opt_str(flag['default']),
+               _lean_list('(%s, %s, %s)' % (_lean_str(a), _lean_str(b), _lean_list(_lean_str(x) for x in c)) for a, b, c in assigns),
+               _lean_list('(%s, %s)' % (_lean_str(a), _lean_str(b)) for a, b in entry_kw),
+               _lean_list('(%s, %s)' % (_lean_str(a), _lean_str(b)) for a, b in proc_kw),
+               _lean_opt_str(fudge['dest']), _lean_opt_str(fudge['type']),
+               '(some (%d, %d))' % (fd.numerator, fd.denominator) if fd is not None else 'none'))
+    info.update({'bonds_from': flag, 'bonds_fudge': {k: str(v) for k, v in fudge.items()},
+                 'membership_tests': assigns, 'makebonds_keywords': proc_kw,
+                 'pdb_to_universal_keywords': [kv for kv in entry_kw if 'bond' in kv[0]]})
+    return text, info
